@@ -70,6 +70,11 @@ fn main() {
                 _ => sg::gen_c05(seed, s, l, &mut log),
             }
         }
+        "mx-grow" => {
+            let mut log = Log::to_path(&out);
+            let calls = read_ndjson(&args.str("in", ""));
+            sg::mx_grow(&calls, &mut log);
+        }
         "mg-scenarios" => {
             let mut log = Log::to_path(&out);
             mg::gen_scenarios(seed, args.num("segments", 60) as usize, args.flag("stable"), &mut log);
